@@ -36,7 +36,7 @@ theorem flush_nil (st : State) : flush st [] = .ok st := by
 
 /-- running the `#define` lines of the API list = installing the API list -/
 theorem foldLines_defines (inc : Inc) (cur : String) (ms : List Macro) (out : List PTok) (once : List String)
-    (api : List ApiDefine) (rest : List Line) :
+    (api : List ApiDefine) (rest : List Line) (hline : ∀ d ∈ api, hasLineBreak d = false) :
     foldLines inc cur (⟨ms, out, once⟩, []) (api.map defineLineOf ++ rest) =
       match initialMacros ms api with
       | .error e => .error e
@@ -45,10 +45,10 @@ theorem foldLines_defines (inc : Inc) (cur : String) (ms : List Macro) (out : Li
   | nil => simp [initialMacros]
   | cons d ds ih =>
     simp only [List.map_cons, List.cons_append, foldLines, defineLineOf, stepLine, flush_nil,
-      doDefine_ws_cons, initialMacros]
+      doDefine_ws_cons, initialMacros, hline d (by simp), Bool.false_eq_true, if_false]
     cases hd : doDefine ms (apiCommand d) with
     | error e => rfl
-    | ok ms' => exact ih ms'
+    | ok ms' => exact ih ms' (fun x hx => hline x (by simp [hx]))
 
 theorem fileStart_of_ne_nil {ls : List Line} (h : ls ≠ []) : fileStart ls = [] := by
   cases ls with
@@ -73,11 +73,13 @@ theorem initialMacros_nodup {ms ms' : List Macro} (api : List ApiDefine) (hn : (
   | nil => simp only [initialMacros] at h; cases h; exact hn
   | cons d ds ih =>
     simp only [initialMacros] at h
-    cases hd : doDefine ms (apiCommand d) with
-    | error e => simp [hd] at h
-    | ok m1 =>
-      simp only [hd] at h
-      exact ih (doDefine_nodup hn hd) h
+    split at h
+    · cases h
+    · cases hd : doDefine ms (apiCommand d) with
+      | error e => simp [hd] at h
+      | ok m1 =>
+        simp only [hd] at h
+        exact ih (doDefine_nodup hn hd) h
 
 def KeepsNodup (inc : Inc) : Prop :=
   ∀ n st r, inc n st = .ok r → (names st.macros).Nodup → (names r.macros).Nodup
@@ -163,10 +165,11 @@ theorem includeFile_keepsNodup (h : Handler) (fuel : Nat) : KeepsNodup (includeF
     simp only [includeFile] at hr
     cases hh : h n with
     | none => simp [hh] at hr
-    | some lines =>
+    | some fd =>
+      obtain ⟨real, lines⟩ := fd
       simp only [hh] at hr
       split at hr
-      · exact runFile_nodup ih n st r [] hr hn
-      · exact runFile_nodup ih n st r lines hr hn
+      · exact runFile_nodup ih real st r [] hr hn
+      · exact runFile_nodup ih real st r lines hr hn
 
 end RsslVerif.Lemmas.MacroApi
